@@ -331,7 +331,8 @@ func verifC32Menu() []verifC32Member {
 }
 
 func (m verifC32Member) hostile() bool {
-	return m.Type != "reg" || strings.Contains(m.Name, "..") || strings.Contains(m.Name, "/") || !strings.Contains(m.Name, "_")
+	wellKnown := m.Name == "export.json" || m.Name == "content.json"
+	return m.Type != "reg" || strings.Contains(m.Name, "..") || strings.Contains(m.Name, "/") || (!strings.Contains(m.Name, "_") && !wellKnown)
 }
 
 func (m verifC32Member) String() string {
@@ -560,7 +561,9 @@ func (im *verifC32Importer) judge(r *eng.Run, ms []verifC32Member, res verifC32I
 // explore runs the streams of this shard. Single-member streams are run by every shard (their outcome decides
 // about pruning) but accounted and judged only by their owner; two-member streams are dealt round-robin and
 // bring their whole subtree along. It returns false when the time budget stopped it.
-func (im *verifC32Importer) explore(r *eng.Run, menu []verifC32Member, bruteDepth, maxDepth int, deadline time.Duration) bool {
+// Streams shorter than accountFrom were accounted by an earlier, shallower pass (iterative deepening, so that
+// a time cap cuts the longest streams first); they are re-run only to learn whether they are rejected.
+func (im *verifC32Importer) explore(r *eng.Run, menu []verifC32Member, bruteDepth, maxDepth, accountFrom int, deadline time.Duration) bool {
 	complete := true
 	var rec func(prefix []verifC32Member, prefixRes verifC32ImportResult, index int, owned bool)
 	rec = func(prefix []verifC32Member, prefixRes verifC32ImportResult, index int, owned bool) {
@@ -571,11 +574,10 @@ func (im *verifC32Importer) explore(r *eng.Run, menu []verifC32Member, bruteDept
 		if pruned && len(prefix) >= bruteDepth {
 			// every extension behaves like the prefix; count what is covered by that argument
 			if owned {
-				n := int64(1)
-				cov := int64(0)
+				// this pass is about streams of exactly maxDepth members (shorter ones: earlier passes)
+				cov := int64(1)
 				for d := len(prefix) + 1; d <= maxDepth; d++ {
-					n *= int64(len(menu))
-					cov += n
+					cov *= int64(len(menu))
 				}
 				r.Add("import_streams_covered_by_rejected_prefix", cov)
 			}
@@ -601,7 +603,7 @@ func (im *verifC32Importer) explore(r *eng.Run, menu []verifC32Member, bruteDept
 				r.NoteCurrent(eng.JSON(verifC32Case{Kind: "import", Members: ms}))
 			}
 			res := im.run(ms)
-			if own {
+			if own && len(ms) >= accountFrom {
 				im.account(r, ms, res, pruned, prefixRes)
 			}
 			rec(ms, res, i, own)
@@ -1090,12 +1092,12 @@ func TestC32(t *testing.T) {
 			eng.HarnessError("C32: control import of a well-formed stream failed: %s", eng.JSON(gres))
 		}
 	}
-	if !im.explore(r, menu, bruteDepth, maxDepth, importDeadline) {
-		capped = true
-	}
-	if capped {
-		r.Cap("time", "import enumeration stopped early in this shard")
-		capped = false
+	for depth, from := bruteDepth, 1; depth <= maxDepth; depth, from = depth+1, depth+1 {
+		if !im.explore(r, menu, bruteDepth, depth, from, importDeadline) {
+			r.Cap("time_import", fmt.Sprintf("import enumeration stopped early in some shard while running streams of %d members", depth))
+			break
+		}
+		r.Add(fmt.Sprintf("import_shards_completed_streams_of_%d_members", depth), 1)
 	}
 
 	// ---- Part II: restore ----
@@ -1160,7 +1162,7 @@ func TestC32(t *testing.T) {
 		}
 	}
 	if capped {
-		r.Cap("time", "restore enumeration stopped early in this shard")
+		r.Cap("time_restore", "restore enumeration stopped early in some shard")
 	}
 
 	r.Finish(rule)
